@@ -369,6 +369,7 @@ Proof.
       destruct (IH kv Hin) as [IHa IHb]. split; [exact (IHa _ _ _ Ea)|exact (IHb _ _ _ Eb)]. }
     pose proof (vdepth_entries_le _ _ Hall). unfold MAX_DEPTH in *. lia.
   - cbn [marshal_p] in H. destruct (N.leb_spec MAX_DEPTH d) as [|Hd]; [discriminate|].
+    destruct (negb (ty_eqb (ty_of x) t)); [discriminate|].
     destruct (is_ok _); [|discriminate]. apply IH in H. cbn [vdepth]. unfold MAX_DEPTH in *. lia.
 Qed.
 
